@@ -148,7 +148,7 @@ func fixedRefs(node gen.J) map[string]bool {
 var globalsRe = regexp.MustCompile(`(?i)\bglobals\.([a-z0-9_]+)`)
 
 // a contact field reference in a template: fields.K (also under contact./parent./child.), not followed by a further lookup
-var fieldsRe = regexp.MustCompile(`(?i)(?:^|[^.\w])(?:(?:parent\.|child\.)?(?:contact\.)?)fields\.([a-z0-9_]+)(?:[^\w.]|$)`)
+var fieldsRe = regexp.MustCompile(`(?i)(?:^|[^.\w])(?:(?:parent\.|child\.)?(?:contact\.)?|run\.contact\.)fields\.([a-z0-9_]+)(?:[^\w.]|$)`)
 
 func (C20) AfterCall(w *World, c *Call) {
 	if !callOK(c) {
